@@ -125,3 +125,40 @@ func runSharedInformerLifetime(c *eng.Ctx, r *eng.RuleCtx) {
 		r.Ok("Factory.cancel is never called", token.NoPos, "shared informers are never stopped")
 	}
 }
+
+// runInitialListHandled (C01.R14, C02.R11): the informers' OnAdd handlers treat a notification of the informer's
+// initial list like any other Added notification - they do not look at the isInInitialList argument. The list made by
+// loadExistedObjects / getExistedObjects and the informer's own first list are two different lists, taken at
+// different moments; what appears or changes in between is known only from the initial-list notifications.
+func runInitialListHandled(c *eng.Ctx, r *eng.RuleCtx) {
+	p := c.P
+	for _, key := range []string{pkgKem + ".(*resourceInformer).OnAdd", pkgKem + ".(*namespaceInformer).OnAdd"} {
+		f := r.NeedFunc(key)
+		if f == nil {
+			continue
+		}
+		info := f.Pkg.TypesInfo
+		sig := f.Obj.Type().(*types.Signature)
+		var flag *types.Var
+		for i := 0; i < sig.Params().Len(); i++ {
+			if b, ok := sig.Params().At(i).Type().Underlying().(*types.Basic); ok && b.Kind() == types.Bool {
+				flag = sig.Params().At(i)
+			}
+		}
+		var use *ast.Ident
+		if flag != nil {
+			ast.Inspect(f.Decl.Body, func(n ast.Node) bool {
+				if id, ok := n.(*ast.Ident); ok && info.Uses[id] == types.Object(flag) {
+					use = id
+				}
+				return true
+			})
+		}
+		pos := f.Decl.Pos()
+		if use != nil {
+			pos = use.Pos()
+		}
+		r.Check(use == nil, f.Key+" initial-list notifications are handled", pos, "isInInitialList is not consulted", "OnAdd treats the objects of the informer's initial list differently from other additions: an object that appeared or changed between the hand-made first list and the informer's own list is neither cached nor reported")
+	}
+	_ = p
+}
